@@ -337,6 +337,15 @@ def code_to_spec(ctx, f, recs):
         rec = execute(f, ct, cls, sz, al, mis, n, mem, how)
         recs.append(rec)
         ctx.case((ct, rec["mis"] % al == 0, content_class(rec), min(n, 3)))
+    # 2-byte characters at every start offset: pair(s) inside the range, high surrogate last, low surrogate after
+    for mis in range(16):
+        for n in (3, rng.randint(4, 9)):
+            units = [0xD800 + rng.getrandbits(10), 0xDC00 + rng.getrandbits(10)] + \
+                    [rng.choice([0x41, 0xD800 + rng.getrandbits(10), 0xDC00 + rng.getrandbits(10)]) for _ in range(n - 3)] + \
+                    [0xD800 + rng.getrandbits(10), 0xDC00 + rng.getrandbits(10)]
+            rec = execute(f, "char16_t", "char", 2, 2, mis, n, b"".join(u.to_bytes(2, "little") for u in units))
+            recs.append(rec)
+            ctx.case(("char16_t", mis % 2 == 0, content_class(rec), 3))
     ctx.sample({"kind": "ffi.unpack vs list comprehension on real cdata", "record": recs[-1]}, limit=3)
 
 
